@@ -740,21 +740,14 @@ Definition op_ctorfrom (m : mode) (st : state) (k : kind) (sv : nat) : out :=
 
 (* --- Go side: Value.Export() of a typed-array VIEW gives a native slice ([]int8 ... []float64) that must
        alias exactly the bytes of the view: it starts at byteOffset and has length elements.
-       goja computes the pointer from the buffer's data, which is nil after a detach: the slice then
-       keeps the view's length at the address byteOffset (unsafe.Slice panics for address 0); the
-       property asks for an empty slice (open finding C17-N10). *)
+       After a detach the slice is empty (like ArrayBuffer.Bytes()). *)
 Definition bytes_hash (l : list N) : Z :=
   fold_left (fun h x => Z.land (h * 257 + Z.of_N x + 1) 4294967295) l 7.
 
 Definition op_goexport (m : mode) (st : state) (v : nat) : out :=
   with_view st v (fun vw =>
     let n := v_len vw * esize (v_kind vw) in
-    if is_det st (v_buf vw) then
-      match m with
-      | MS => (st, RExp 0 0 (bytes_hash []), [])
-      | MI => if (addr MI vw 0 =? 0) && (v_len vw >? 0) then (st, RPanic, [])
-              else (st, RExp (addr MI vw 0) (v_len vw) (-1), [])
-      end
+    if is_det st (v_buf vw) then (st, RExp 0 0 (bytes_hash []), [])
     else
       (st, RExp (addr m vw 0) (v_len vw) (bytes_hash (rd_buf st (v_buf vw) (addr m vw 0) n)),
        if n >? 0 then [tch st (v_buf vw) (addr m vw 0) n] else [])).
